@@ -4,7 +4,7 @@ closed and never handed out, every finalizer runs.  Ghost per DBAPI connection: 
 from pyvc.contract import fn, cls
 
 R = "pool/base.py::_ConnectionRecord."
-cls("DBConn", fields={"closed": "bool"})
+cls("DBConn", fields={"closed": "bool", "_g_dead": "bool"})    # _g_dead: ghost, "a disconnect was detected on this connection"
 cls("RDispatch", fields={"checkin": "v", "close": "v", "first_connect": "v", "connect": "v"})
 cls("RPool", fields={"dispatch": "RDispatch", "_recycle": "int", "_invalidate_time": "int", "logger": "v", "returned": "int"},
     methods={"_invoke_creator": "pool/base.py::Pool._invoke_creator", "_close_connection": "pool/base.py::Pool._close_connection",
@@ -14,8 +14,8 @@ cls("CRecord", fields={"dbapi_connection": "DBConn", "__pool": "RPool", "startti
     methods={n: R + n for n in ["__close", "__connect", "close", "invalidate", "get_connection", "checkin", "_is_hard_or_soft_invalidated"]})
 
 fn("pool/base.py::Pool._invoke_creator", abstract=True, cls="RPool", params=["self", "rec"], returns="DBConn", fresh_result=True,
-   ensures=["not result.closed"], may_raise={"BaseException": "True"},
-   notes="creator returns a new open DBAPI connection or raises with nothing opened")
+   ensures=["not result.closed", "not result._g_dead"], may_raise={"BaseException": "True"},
+   notes="creator returns a new open DBAPI connection (on which no disconnect has been detected) or raises with nothing opened")
 fn("pool/base.py::Pool._close_connection", abstract=True, cls="RPool", params=["self", "connection", "terminate"], types={"connection": "DBConn"},
    returns="none", modifies=["connection.closed"], ensures=["connection.closed"],
    notes="dialect.do_close / do_terminate; exceptions are swallowed there: the connection counts as closed (close attempted)")
@@ -36,7 +36,7 @@ fn(R + "__close", cls="CRecord", props=["C26"], types=T, callees=NOOP, returns="
    ensures=[f"{C} is None", f"{OC}.closed", "len(self.finalize_callback) == 0"],
    modifies=["self.dbapi_connection", f"{C}.closed", "contents(self.finalize_callback)"])
 fn(R + "__connect", cls="CRecord", props=["C26"], types=T, callees=NOOP, returns="none",
-   ensures=[f"{C} is not None and fresh({C}) and not {C}.closed", "self.fresh"],
+   ensures=[f"{C} is not None and fresh({C}) and not {C}.closed and not {C}._g_dead", "self.fresh"],
    may_raise={"BaseException": "True"},
    # no half-open record: a failed connect leaves the record without a connection
    exc_ensures={"BaseException": [f"{C} is None"]},
@@ -58,6 +58,8 @@ fn(R + "get_connection", cls="CRecord", props=["C26"], types=T, callees=NOOP, re
             # a connection that was invalidated (pool-wide or softly) is closed and not handed out
             f"implies({INVALIDATED}, {OC}.closed and result is not {OC} and fresh(result))",
             f"implies({OC} is None, fresh(result))",
+            # a replacement is a brand-new connection: no disconnect has been detected on it
+            "implies(fresh(result), not result._g_dead)",
             # a kept connection is the old one, untouched
             f"implies(result is {OC}, not {INVALIDATED})"],
    may_raise={"BaseException": "True"},
